@@ -46,4 +46,5 @@ registry! {
     c18::C18,
     c19::C19,
     c23::C23,
+    c24::C24,
 }
